@@ -307,6 +307,11 @@ def mergeAttrs (kw attrs : List (PStr × AttrVal)) : List (PStr × AttrVal) :=
 def newTagAttrs (name : PStr) (kw attrs : List (PStr × AttrVal)) : List (PStr × AttrVal) :=
   setUpSubstitutions name (mergeAttrs kw attrs)
 
+/-- `tag[key] = value` (element.py `Tag.__setitem__`: `self.attrs[key] = value`): the value goes into the attribute
+    dictionary as it is. `HTMLTreeBuilder.set_up_substitutions` is called from `Tag.__init__` only (a `Tag` keeps no reference
+    to its builder), so a string assigned later — to a fresh `<meta>` or over an existing placeholder — is a plain string -/
+def setItem (k v : PStr) (attrs : List (PStr × AttrVal)) : List (PStr × AttrVal) := setAttr k (.plain v) attrs
+
 /-! ## 3. rendering (minimal formatter) -/
 
 def escXml (c : Nat) : PStr :=
